@@ -1,6 +1,7 @@
 import TabulaModel.Util
 import TabulaModel.Model.PdfDoc
 import TabulaModel.Model.Reader
+import TabulaModel.Model.ReadBytes
 /-!
 Line protocol of C01 (bytes are lower-case hex, `-` = empty):
 
@@ -23,6 +24,9 @@ Line protocol of C01 (bytes are lower-case hex, `-` = empty):
   reply: `ok n=<pages> <page>|<page>…` (`-` when there is no page); a page is its strings
   separated by `,` (`~` = no string); a string is its scalar values in hex separated by `.`
   (`-` = empty); or `err` / `unsupported` / `fuel`.
+* `c01.readbytes <file> <inflate> <nfc>` — the reader model on the BYTES of the file
+  (`ReadBytes.readBytes`: C04's byte-level `openFile` / `getObjectB` under `Reader.readWith`);
+  `file` = the whole file in hex; `inflate`, `nfc` and the reply as for `c01.read`.
 -/
 namespace Tabula.C01H
 open Tabula Tabula.PdfDoc
@@ -188,6 +192,15 @@ def handle (op : String) (args : List String) : String :=
         nfc := fun p => match nfc.find? (fun e => e.1 == p) with | some e => e.2 | none => nfcMissing :: p }
       showResult (Reader.readPages { objs := objs, secs := secs, start := start } ext)
     | _, _, _, _, _ => "bad-op"
+  | "c01.readbytes", [file, infl, nfc] =>
+    match unhexN file, parseInflate infl, parseNfc nfc with
+    | some file, some infl, some nfc =>
+      let ext : Reader.Ext := {
+        filt := { inflate := fun x => match infl.find? (fun e => e.1 == x) with | some e => e.2 | none => none,
+                  ccitt := fun _ _ => none },
+        nfc := fun p => match nfc.find? (fun e => e.1 == p) with | some e => e.2 | none => nfcMissing :: p }
+      showResult (ReadBytes.readBytes file ext)
+    | _, _, _ => "bad-op"
   | _, _ => "bad-op"
 
 end Tabula.C01H
